@@ -644,6 +644,10 @@ def render_int(x: SymInt, maxdigits=45):
     if x.is_const():
         return str(x.lo)
     ex = cur()
+    memo = ex.scratch.setdefault("render_int", {})
+    hit = memo.get(x.e.get_id())
+    if hit is not None and hit[0].eq(x.e):
+        return hit[1]  # the same term rendered twice on one path: the same digit variables (the decomposition is unique)
     neg = _b(x < 0)
     a = -x if neg else x
     nd = 1
@@ -655,8 +659,9 @@ def render_int(x: SymInt, maxdigits=45):
     digs, total, cells = [], 0, []
     for k in range(nd - 1, -1, -1):
         v = z3.BitVec(f"__digit{_FRESH[0]}_{k}", 5)
-        ex.add(z3.And(v >= 0, v <= 9))
-        d = SymInt(v, 0, 9)
+        dlo = 1 if (k == nd - 1 and nd > 1) else 0  # the forked digit count already implies a non-zero leading digit; saying so keeps that fact out of the arithmetic
+        ex.add(z3.And(v >= dlo, v <= 9))
+        d = SymInt(v, dlo, 9)
         digs.append(d)
         total = total * 10 + d  # Horner form, the same shape parse_int builds
         cell = d + 48
@@ -664,7 +669,9 @@ def render_int(x: SymInt, maxdigits=45):
         cells.append(cell)
     ex.add((a == total).e)
     RENDERED[tuple(c.e.get_id() for c in cells)] = (tuple(c.e for c in cells), a)
-    return norm(SymStr(([45] if neg else []) + cells))
+    out = norm(SymStr(([45] if neg else []) + cells))
+    memo[x.e.get_id()] = (x.e, out)
+    return out
 
 
 HEXPAIR = {}  # ids of the two hex-digit cells rendered from one byte -> (terms, byte)
